@@ -67,6 +67,9 @@ def run(ctx: Ctx):
                 ctx.check(got is False, "null-survives", q,
                           f"{q} ({exp[q]}) is omitted when unset: an explicit null / literal in the input is lost",
                           P_HOOKS, f.lineno)
+            elif not f.has_default:
+                # a required attribute is never unset: cattrs' omit_if_default has nothing to compare it with
+                ctx.ok("unset-stays-absent", {"attr": q, "required": True})
             else:
                 ctx.check(got is True, "unset-stays-absent", q,
                           f"{q} is written even when unset although its property is a plain optional one: "
